@@ -1,3 +1,4 @@
+import HttpcoreModel.Props.C03Parse
 import HttpcoreModel.Props.Backend
 import HttpcoreModel.Lemmas.Chunked
 import HttpcoreModel.Url
